@@ -143,6 +143,25 @@ def run(ctx):
             viol.append({'property': 'C14', 'kind': 'all-lower-changed-base', 'witness': {'spec': spec}})
         if len(samples) < 3 and variant != 'none':
             samples.append({'grammar': spec['grammar'], 'variant': variant, 'skip_stream_head': [(p, [str(x) for x in k][:2]) for p, k in s1[:3]]})
+    # 2b. whatever the seed: the rescaled probability of the only non-Markov structure rounds to just above 1 (0.2 / (1.0 - 0.8) =
+    # 1.0000000000000002, what a ruleset trained with coverage 0.2 holds) and its best terminals have probability 1: nothing may be
+    # lost under any flag combination, whatever the queue thinks of a probability above 1
+    fspec = {'terminals': {'A8': [['password', '1.0']], 'C8': [['LLLLLLLL', '0.75'], ['ULLLLLLL', '0.25']]},
+             'grammar': [['M', '0.8'], ['A8', '0.2']], 'omen_prob': [['1', '0.25'], ['2', '0.125']], 'prince': [], 'mode': 'float', 'encoding': 'utf-8',
+             'omen': gen_omen.gen_omen(rng, ngram=2, nletters=2, maxlen_extra=1)}
+    fd = common.write_ruleset(os.path.join(rr, 'c14_above_one'), fspec)
+    try:
+        fk = {}
+        for sb in (False, True):
+            for sc in (False, True):
+                fk[(sb, sc)] = [k for _, k in stream_groups(common.load_grammar(fd, skip_brute=sb, skip_case=sc), drop_markov=True)]
+        cases += 1
+        dist['rescaled_above_one'] = 1
+        if fk[(True, False)] != fk[(False, False)] or fk[(True, True)] != fk[(False, True)] or not fk[(False, True)]:
+            viol.append({'property': 'C14', 'kind': 'skip-brute-stream', 'variant': 'rescaled probability above 1',
+                         'lens': {f"skip_brute={a},all_lower={b}": len(v) for (a, b), v in fk.items()}, 'witness': {'spec': fspec}})
+    except Exception as e:
+        viol.append({'property': 'C14', 'kind': 'load-raised', 'error': repr(e)[:200], 'witness': {'spec': fspec}})
     # 3. flags through save/restore (subprocess): run with the flag, then --load without it
     cli_runs = 0
     for i in range(ctx.scale(2, 8)):
